@@ -1,7 +1,7 @@
 (* Props/C01.v — C01: the external sort (sort_by) returns every input item exactly once in comparator
    order, for every chunk size, both comparators and every in-memory sorting function.
    Only statements, closed by [exact]; proofs live in MergerProofs.v. *)
-From BedV Require Import Base ListFacts AlgebraModel ExtSortModel MergerProofs.
+From BedV Require Import Base ListFacts AlgebraModel ExtSortModel MergerProofs ChunkProofs PipelineProofs.
 
 (* run formation loses, duplicates and reorders nothing *)
 Theorem C01_runs_concat : forall A cs (l : list A), concat (runs cs l) = l.
@@ -47,6 +47,13 @@ Proof. exact sorted_perm_unique. Qed.
 Print Assumptions C01_sorted_perm_unique.
 
 (* non-vacuity: 7 items with ties, chunk size 3 (runs of 3, 3 and 1), both comparators; chunk size 0 *)
+(* the spill step that ext_sort's model abstracts: a run (of byte-blob records) dumped to fault-free storage is
+   stored as its frames, and reading them back through fault-free storage yields exactly the run (C09 composed) *)
+Theorem C01_spill_roundtrip : forall run, Forall blob_ok run ->
+  exists st, dump (mkW [] []) run = (st, None) /\ w_stored st = frames run /\ chunk_read (w_stored st) [] = map CItem run.
+Proof. exact spill_roundtrip. Qed.
+Print Assumptions C01_spill_roundtrip.
+
 Example C01_nonvacuous :
   let input := [(5, 0); (3, 1); (5, 2); (1, 3); (3, 4); (9, 5); (1, 6)] in
   runs 3 input = [[(5, 0); (3, 1); (5, 2)]; [(1, 3); (3, 4); (9, 5)]; [(1, 6)]] /\
